@@ -624,6 +624,7 @@ Proof.
     - subst Tm. rewrite Htm. reflexivity. }
   split; [exact Hmode|].
   split. { unfold tv_size. cbn [tv_chars]. rewrite alen_of_list. fold (lenN C). rewrite HC0, lenN_cons. lia. }
+  split. { unfold tv_size. cbn [tv_chars]. rewrite alen_of_list. fold (lenN C). rewrite HlenC. lia. }
   split.
   { intros q _. unfold t_match, t_prefix_match. rewrite N.eqb_refl.
     destruct q; split; reflexivity. }
